@@ -129,7 +129,7 @@ def main() -> None:
             env={"PYTHONPATH": f"{WT}:.", "PYTHONDONTWRITEBYTECODE": "1", "PYTHONHASHSEED": "0", "VERIF_SEED": "1"},
         )
         buckets = re.findall(r"^\s+bucket=(.*)$", out, flags=re.M)
-        sh("git checkout -q -- evidence", cwd=ROOT)
+        sh("git checkout -q -- ':(glob)evidence/*.json'", cwd=ROOT)
         results[mid] = {
             "check": pid, "file": rel, "what": what, "applied": True, "repo_tests": tests.strip(),
             "caught": rc == 1 and bool(buckets), "exit": rc, "buckets": buckets[:4],
